@@ -361,6 +361,17 @@ def _r30c(chk, repo) -> None:
             "after emitting a patch's slice the cursor compared by the skip test is not moved to the patch's stop on every path",
             detail="emit: cursor advanced to the patch's stop",
         )
+        # the cursor never moves for a skipped patch: every assignment of the cursor to a patch's stop inside the
+        # loop lies behind the emit of that patch in the same iteration (an assignment reachable from the loop head
+        # without passing the emit would pull the cursor back into text that is already covered)
+        for a in adv:
+            skipped_path = cfg.paths_avoiding(loop, a, lambda x: x is st)
+            chk.require(
+                not skipped_path, "R30c", a,
+                "the cursor is moved to a patch's stop also when that patch was skipped as overlapping: the cursor goes backwards and the text of the "
+                "covered range is emitted (and patched) a second time",
+                detail="cursor only advanced for emitted patches",
+            )
         chk.sample({"rule": "R30c", "site": f"{LFILE}:{n.lineno}", "emit": short(n, 60), "cursor": guard_cursor})
 
 
@@ -468,6 +479,12 @@ def _r30d(chk, repo) -> None:
 from ..selftest import Variant  # noqa: E402
 
 VARIANTS = [
+    Variant(
+        "slicer-cursor-moves-for-skipped-patch", LFILE,
+        "                # Ignore the patch for now...\n                continue\n\n            # Add this patch.\n            slice_buff.append(patch.source_slice)\n",
+        "            else:\n                # Add this patch.\n                slice_buff.append(patch.source_slice)\n",
+        "R30c", "_slice_source_file_using_patches", "seeded C30-2: `a=2` becomes `a = 2= 2` when two variants express one fix at different granularity",
+    ),
     Variant(
         "merge-conflict-test-dropped", PATCH,
         "        if any(_patches_conflict(existing, patch) for existing in merged_patches):\n",
